@@ -14,3 +14,18 @@ def unclaimed(pid, reason):
 
 for _i in range(1, 21):
     unclaimed(f"C{_i:02d}", "check not built yet in this round; will be decided with the TLA+ specification (see DESIGN.md section 5)")
+
+
+claim("C04",
+      text="TLC exhaustively enumerates the simple lattice polygons of spec/Polygon2.tla (ear-growth machine, all reversals "
+           "and start vertices), proves inside the specification that the shoelace/centroid/second-moment formulas as coded "
+           "(spec/AlgPolygon.tla) equal the integrals over the growth triangulation (spec/Geom2.tla), and emits the exact "
+           "values; every emitted state is replayed into coxeter.shapes.Polygon/ConvexPolygon under rational similarity "
+           "placements and compared at 1e-9 relative. Bounded model checking + conformance replay is the right level: the "
+           "property is a universally quantified numeric identity whose case analysis (orientation, normal choice, reflex "
+           "first corner, embedding) is finite and small.",
+      note="Trusted: TLC, vh/terms.py, vh/placement.py (covariance laws applied in Fraction arithmetic), tolerance table "
+           "(DESIGN 4.3). Not decided: generic non-lattice polygons; planar moments for polygons outside the xy-plane "
+           "(the statement restricts them to the xy-plane with +z normal).",
+      technique="TLA+ model checking (TLC) of an exact-arithmetic polygon state machine + spec-to-code replay",
+      design_ref="DESIGN.md 5 C04")
